@@ -689,6 +689,32 @@ def run(ctx, res):
             continue
         n_exit += 1
         leak = D.reach_from(f, [f.blocks[pb]["term"]["target"]], avoid_blocks=frame_pops + pushes + [L.pop_bb]) & set(L.return_bbs)
+        # the value must go back into the frame it was popped from: no error may be built, within this iteration, after the
+        # frame itself has been taken off the stack (a push_value after that lands in the caller's frame)
+        err_blocks = set()
+        for bi2, b2 in enumerate(f.blocks):
+            for st2 in b2["stmts"]:
+                if st2.get("s") == "assign" and st2["rv"]["k"] == "agg" and st2["rv"].get("variant") == "Err" and "EvalError" in str(st2["rv"].get("adt", "")) + f.local_ty(st2["place"]["l"]):
+                    err_blocks.add(bi2)
+        prefix = D.reach_from(f, [f.blocks[pb]["term"]["target"]], avoid_blocks=pushes + [L.pop_bb])
+        wrong_frame = set()
+        frame_pushes = [bi2 for bi2, t2 in f.calls() if (M.callee_name(t2) or "").endswith("Vec::<T, A>::push")
+                        and len(t2.get("argtys") or []) > 1 and "StackFrame" in t2["argtys"][1]]
+        for fp in frame_pops:
+            if fp in prefix:
+                tgt_ = f.blocks[fp]["term"]["target"]
+                if tgt_ is not None:
+                    # while the frame is off the stack (until it is pushed back): an error built, or the value pushed
+                    off = D.reach_from(f, [tgt_], avoid_blocks=frame_pushes + [L.pop_bb])
+                    can_err = D.reach_from(f, [tgt_], avoid_blocks=[L.pop_bb]) & err_blocks
+                    if can_err:
+                        wrong_frame |= (off & err_blocks) | {b_ for b_ in off if b_ in pushes and D.reach_from(f, [b_], avoid_blocks=[L.pop_bb]) & err_blocks}
+        if wrong_frame:
+            res.bad("EXIT-RESTORE", "eval::eval # return-value-restored-into-wrong-frame",
+                    "eval::eval takes the finished frame off the stack before the return-type check can fail: the value it pushes back for "
+                    "`:resume` lands in the caller's frame, and the re-run pops the callee frame's placeholder instead (the error message changes)",
+                    f.loc(f.blocks[sorted(wrong_frame)[0]]["term"].get("span")))
+            continue
         if leak:
             res.bad("EXIT-RESTORE", "eval::eval # return-value-not-restored",
                     "eval::eval pops the callee's return value and can then return an error without pushing it back "
